@@ -89,6 +89,15 @@ def In(x: Any, s: Any) -> Any:
     return x in s
 
 
+def Count(lst: Any, x: Any) -> Any:
+    """Number of occurrences of x in a list (multiset view)."""
+    from .values import VList, to_term
+    if isinstance(lst, VList):
+        ctx = current()
+        return VInt(z3.Select(ctx.ex.list_bag(lst, ctx.st), to_term(x, lst.elem)))
+    return list(lst).count(x)
+
+
 def IsNone(x: Any) -> Any:
     if isinstance(x, VUnion):
         return x.is_none()
@@ -212,7 +221,8 @@ class use_ctx:
 
 class Clause:
     def __init__(self, label: str, fn: Callable[..., Any], tags: Sequence[str] = (), must_fail: bool = False,
-                 note: str = ""):
+                 note: str = "", known: Optional[Dict[str, Callable[..., Any]]] = None):
+        self.known = known or {}   # finding id -> predicate (same parameters as fn) delimiting the known-finding case
         self.label = label
         self.fn = fn
         self.tags = list(tags)
@@ -279,8 +289,11 @@ def requires(c: Contract, label: str, fn: Callable[..., Any], tags: Sequence[str
     c.requires.append(Clause(label, fn, tags))
 
 
-def ensures(c: Contract, label: str, fn: Callable[..., Any], tags: Sequence[str] = (), note: str = "") -> None:
-    c.ensures.append(Clause(label, fn, tags, note=note))
+def ensures(c: Contract, label: str, fn: Callable[..., Any], tags: Sequence[str] = (), note: str = "",
+            known: Optional[Dict[str, Callable[..., Any]]] = None) -> None:
+    """known = {finding id: predicate}: the clause is proved outside the predicate's case (must discharge) and,
+    separately, inside it (expected to be refuted while the finding is listed in known_findings.json)."""
+    c.ensures.append(Clause(label, fn, tags, note=note, known=known))
 
 
 def must_fail(c: Contract, label: str, fn: Callable[..., Any], tags: Sequence[str] = ()) -> None:
